@@ -13,6 +13,7 @@ import (
 
 	"verifharness/mon"
 	"verifharness/ref"
+	"verifharness/xport"
 )
 
 // A guard page, the classic sanitizer device: the payload is laid so that it ENDS exactly where a page the
@@ -134,6 +135,48 @@ func subGuardPage() mon.Sub {
 				if !g.tailIntact() {
 					c.Fail("guard-page/tail", "the bytes behind the slice changed", det)
 					return
+				}
+				// the variants documented as COPYING get the caller's payload in read-only memory: they never store to it
+				if off == 0 && n > 0 {
+					ro, free, err := xport.ReadOnly(data)
+					if err != nil {
+						c.Inconclusive("no read-only mapping: " + err.Error())
+						return
+					}
+					copying := map[string]func() []byte{
+						"ws.MaskFrameWith": func() []byte { return ws.MaskFrameWith(ws.NewBinaryFrame(ro), key).Payload },
+						"ws.MaskFrame":     func() []byte { f := ws.MaskFrame(ws.NewBinaryFrame(ro)); return ref.Mask(f.Payload, f.Header.Mask, 0) },
+						"ws.UnmaskFrame": func() []byte {
+							f := ws.NewBinaryFrame(ro)
+							f.Header.Masked, f.Header.Mask = true, key
+							return ws.UnmaskFrame(f).Payload
+						},
+						"wsutil.CipherWriter.Write": func() []byte {
+							var b bytes.Buffer
+							wsutil.NewCipherWriter(&b, key).Write(ro)
+							return b.Bytes()
+						},
+					}
+					for name, call := range copying {
+						c.Count(1)
+						var out []byte
+						if f := faulting(func() { out = call() }); f != "" {
+							det["fault"] = f
+							free()
+							c.Fail("read-only-input/"+name, fmt.Sprintf("%s on a %d-byte payload in read-only memory took a fault: it stores to the caller's bytes", name, n), det)
+							return
+						}
+						wantOut := want
+						if name == "ws.MaskFrame" {
+							wantOut = data // (unmasked again with the key the helper chose)
+						}
+						if !bytes.Equal(out, wantOut) {
+							free()
+							c.Fail("read-only-input/bytes/"+name, name+": result differs from the XOR of the payload with the key", det)
+							return
+						}
+					}
+					free()
 				}
 			}
 			c.Classf("offset=%d key=%d", off, c.I/8)
